@@ -465,6 +465,18 @@ def canon_nd(t, ranks=None):
             r = None
             if op == 'nd_slice' and len(args) == 2 and T.is_app(args[1], 'sliceinfo') and T.is_app(args[1][2][0], 'array'):
                 r = _sel_compose(args[0], [_spec(s) for s in args[1][2][0][2]])
+            elif op in ('ndarray::ArrayBase::slice_axis', 'slice_axis') and len(args) == 3 and T.is_app(args[1], 'adt:ndarray::Axis'):
+                # x.slice_axis(Axis(k), Slice::from(range)): a range on axis k, everything on the other axes
+                rk = rank_of(args[0])
+                ax = args[1][2][0][2][0]
+                sp_ = args[2]
+                if T.is_app(sp_, ('adt:ndarray::Slice', 'ndarray::Slice::from', 'std::convert::From::from', 'slice_from')) and sp_[2]:
+                    sp_ = sp_[2][0]
+                if rk is not None and T.is_num(ax) and ax[1] < rk:
+                    specs = [STAR] * rk
+                    specs[ax[1]] = _spec(sp_)
+                    if _is_free(specs[ax[1]]):
+                        r = _sel_compose(args[0], specs)
             elif op == 'column' and len(args) == 2:
                 r = _sel_compose(args[0], [STAR, args[1]])
             elif op == 'row' and len(args) == 2:
